@@ -385,9 +385,13 @@ def live_part(ctx, sizes, codes, wd):
     old_hook = threading.excepthook
     threading.excepthook = lambda args: None      # prefetch threads of closed sessions die noisily
 
-    def upload(src, pos, code, confirm, use_put, cb, declared=None):
-        """One upload on a fresh session.  Returns (status, value, destination bytes, rejected?)."""
+    def upload(src, pos, code, confirm, use_put, cb, declared=None, prior=None):
+        """One upload on a fresh session.  Returns (status, value, destination bytes, rejected?).
+        prior: bytes the remote file holds before the upload (None: it does not exist)."""
         sess = box["sess"] = alive_session(ctx, box["sess"])
+        if prior is not None:
+            with open(os.path.join(sess.root, "up.bin"), "wb") as fh:
+                fh.write(prior)
         faults.reset()
         faults.fail_write = None if pos is None else (pos, code)
         lsrc = os.path.join(local, "src.bin")
@@ -410,11 +414,15 @@ def live_part(ctx, sizes, codes, wd):
             dst = b""
         return st, v, dst, faults.hit is not None
 
-    def download(src, pos, what, prefetch, use_get, cb, mc, resize=None):
-        """One download on a fresh session.  Returns (status, value, bytes received, fault hit)."""
+    def download(src, pos, what, prefetch, use_get, cb, mc, resize=None, prior_local=None):
+        """One download on a fresh session.  Returns (status, value, bytes received, fault hit).
+        prior_local: bytes the local destination of get() holds beforehand."""
         sess = box["sess"] = alive_session(ctx, box["sess"])
         with open(os.path.join(sess.root, "down.bin"), "wb") as fh:
             fh.write(src)
+        if prior_local is not None:
+            with open(os.path.join(local, "dst.bin"), "wb") as fh:
+                fh.write(prior_local)
         faults.reset()
         faults.fail_read = None if pos is None else (pos, what)
         ldst = os.path.join(local, "dst.bin")
@@ -449,6 +457,46 @@ def live_part(ctx, sizes, codes, wd):
             src = bytes(rng.getrandbits(8) for _ in range(min(size, 4096))) * (size // 4096 + 1)
             src = src[:size]
             nchunks = max(1, (size + 32767) // 32768)
+            # ---- the destination's prior state: missing / longer / shorter / same length with other bytes
+            other = bytes((b + 1) % 256 for b in src)
+            priors = [("missing", None), ("longer", other + b"old tail " * 600), ("shorter", other[:size // 2]),
+                      ("same-length", other)]
+            for pname, prior in priors:
+                for confirm in (False, True):
+                    use_put = rng.random() < 0.5
+                    case = {"op": "put" if use_put else "putfo", "size": size, "confirm": confirm,
+                            "remote_file_before": pname, "remote_len_before": None if prior is None else len(prior)}
+                    ctx.count(("prior", repr(case)), nontrivial=True, kind="live-upload:over-existing-" + pname)
+                    st, v, dst, _ = upload(src, None, 0, confirm, use_put, False, None, prior)
+                    if st != "ok":
+                        st, v, dst, _ = upload(src, None, 0, confirm, use_put, False, None, prior)
+                    if st == "hang":
+                        ctx.fail("upload-hangs", "an upload did not complete under the watchdog", case=case)
+                    elif st == "exc":
+                        ctx.fail("upload-raises-without-fault", "a fault-free upload on a fresh session raised %r "
+                                 "(twice)" % (v,), case=case)
+                    elif dst != src:
+                        ctx.fail("upload-inexact-over-existing-file:" + pname,
+                                 "%s over an existing remote file (%s: %s bytes) returned normally but the remote file "
+                                 "has %d bytes and is not the %d-byte source" % (case["op"], pname,
+                                                                                 case["remote_len_before"], len(dst), len(src)),
+                                 case=case, expected={"len": len(src)},
+                                 observed={"len": len(dst), "first_diff": first_diff(src, dst)})
+            for pname, prior in priors[1:]:
+                prefetch = rng.random() < 0.5
+                case = {"op": "get", "size": size, "prefetch": prefetch, "local_file_before": pname,
+                        "local_len_before": len(prior)}
+                ctx.count(("prior-local", repr(case)), nontrivial=True, kind="live-download:into-existing-" + pname)
+                st, v, got, _ = download(src, None, None, prefetch, True, False, None, prior_local=prior)
+                if st == "ok" and got != src:
+                    ctx.fail("download-inexact-into-existing-file:" + pname,
+                             "get into an existing local file (%s: %d bytes) returned normally but the local file has %d "
+                             "bytes and is not the %d-byte remote file" % (pname, len(prior), len(got), len(src)),
+                             case=case, expected={"len": len(src)},
+                             observed={"len": len(got), "first_diff": first_diff(src, got)})
+                elif st != "ok":
+                    ctx.fail("download-raises-without-fault" if st == "exc" else "download-hangs",
+                             "a fault-free get into an existing local file did not return normally: %r" % (v,), case=case)
             # ---- the declared size is only a progress hint: under- and over-estimates, and the default 0
             for declared in sorted({0, 1, size // 2, max(0, size - 1), 32768, size + 1000}):
                 confirm = rng.random() < 0.5
@@ -811,7 +859,9 @@ def run(ctx):
                 "files that grow or shrink between get/getfo's stat and its reads; putfo to a scripted server that dies "
                 "at every request of the transfer (each write, close, stat), sends failing or reads hitting EOF, "
                 "confirm on/off; capped-prefetch downloads with the prefetch thread and the reader made to enter "
-                "_async_request together.  Non-trivial = distinct and non-empty.")
+                "_async_request together; uploads over a remote file that is missing / longer / shorter / same length "
+                "with other bytes, and get() into an existing local file, confirm on/off.  Non-trivial = distinct "
+                "and non-empty.")
     ctx.trusted += ["models coq/Model/C29.v and C30.v are hand-written; tied to sftp_client.py / sftp_file.py / file.py "
                     "by this differential run (vm_compute of the model's own definitions)",
                     "download path covered by the implementation-level oracle only"]
